@@ -553,8 +553,6 @@ def long_san_cases(rng: random.Random, quick: bool):
             out.append("\uff41" * (n - 1) + tail)
     # a strip character at EVERY position: whatever the cut position, one of these ends in '.' or '_' there
     for total in (300, 4100):
-        if quick and total == 4100:
-            continue
         for head in ("a", "aa"):
             for pair in (".a", "_a", "._a"):
                 out.append((head + pair * total)[:total])
@@ -563,7 +561,7 @@ def long_san_cases(rng: random.Random, quick: bool):
     for length in (range(4095, 4098) if quick else range(4090, 4101)):
         for a in ks:
             out.append(_place(length, "a", {-1: a}))
-            if not quick:
+            if not quick and 4095 <= length <= 4097:
                 for b in cl:
                     out.append(_place(length, "a", {-2: a, -1: b}))
     for a in ks:
